@@ -116,7 +116,8 @@ Fixpoint first_diff (a : int) (l : list int) : option (int * int * int) :=
   | [] => None
   | x :: r => let m := enc_cell (resolve_fast a) in if m =? x then first_diff (a + 1) r else Some (a, m, x)
   end.
-Definition observed : list int := [{vals}].
+{chunks}
+Definition observed : list int := concat [{names}].
 Definition d := Eval vm_compute in first_diff {base} observed.
 Print d.
 """
@@ -208,7 +209,9 @@ def first_difference(harness, bank):
     if rc != 0 or not vals:
         return None
     dv = os.path.join(vlib.RUN, "Diff_C11.v")
-    vlib.write_if_changed(dv, DIFF_V.format(vals="; ".join(vals[0].split()[1:]), base=bank << 16))
+    v = vals[0].split()[1:]
+    chunks = ["Definition o%d : list int := [%s]." % (i, "; ".join(v[i * 512:(i + 1) * 512])) for i in range((len(v) + 511) // 512)]
+    vlib.write_if_changed(dv, DIFF_V.format(chunks="\n".join(chunks), names="; ".join("o%d" % i for i in range(len(chunks))), base=bank << 16))
     rc, out, _, _ = vlib.coqc(dv, timeout=600)
     m = re.search(r"Some\s*\(\s*(\d+)\s*,\s*(\d+)\s*,\s*(\d+)\s*\)", out)
     if rc != 0 or not m:
@@ -313,6 +316,15 @@ def run_c11(ck):
                    "the probe of the real System observed %d and %d" % (nums.get("n_backed"), nums.get("n_io"), backed, st.get("io", -1)), same,
                    out if rc != 0 else "kernel %s vs observed %s" % (nums, st))
     all_ok = all_ok and ok
+    if tier == "thorough":
+        # independent re-check of the static part by coqchk (the per-run sweep files need the VM and are not re-checked)
+        rcq, outq, dtq = vlib.sh(["coqchk", "-silent", "-o", "-Q", "Lib", "Lib", "-Q", "Props", "Props", "-Q", "Model", "Model", "Props.SystemProps"],
+                                 cwd=vlib.COQ, timeout=1800, env=dict(os.environ))
+        clean = rcq == 0 and all(re.search(k + r":\s*<none>", outq) for k in
+                                 ("relying on type-in-type", "relying on unsafe \\(co\\)fixpoints", "positivity is assumed"))
+        ok = ck.oblige("coqchk -o accepts Lib.Sweep, Lib.Digest, Model.System, Props.SystemProps; no type-in-type, unsafe fixpoints or assumed positivity (%.0fs)" % dtq,
+                       clean, outq[-1200:])
+        all_ok = all_ok and ok
     foreign = vlib.foreign_assumptions(ck.assumptions)
     ck.oblige("Print Assumptions lists only Uint63 primitives and the standard library's axioms for them", not foreign, "unexpected: %s" % foreign)
     all_ok = all_ok and not foreign and not bad
@@ -361,20 +373,28 @@ def run_c11(ck):
 
 
 def replay(pid, rp):
+    """re-run the recorded case on the current tree: exit 1 if it still fails"""
     r = rp.get("replay", {})
     harness, herr = vlib.build_harness()
     if harness is None:
         print(herr)
         return 1
+    still = False
     if "input_hex" in r:
         rc, out, _ = vlib.sh([harness, "syseval", r["input_hex"]], timeout=300)
         print(out.strip())
-    rc, out, _ = vlib.sh([harness, "sysprobe", "quick"], timeout=900)
-    hit = [l for l in out.splitlines() if l.startswith("FAIL")]
-    if r.get("clause"):
-        hit = [l for l in hit if l.startswith("FAIL " + r["clause"])]
-    print("\n".join(hit) if hit else "no clause of C11 fails on the current tree")
-    if rp.get("kind") != "counterexample":
-        print(rp.get("detail"))
+        mv = r.get("model_vs_code")
+        if mv:
+            m = re.search(r"reads from (\S+);", out)
+            still = not (m and m.group(1) == mv["model"])
+            print("model Model/System.v says %s at $%s: %s" % (mv["model"], mv["address"].upper(),
+                  "the real System still differs" if still else "the real System agrees now"))
+    if rp.get("kind") == "counterexample":
+        rc, out, _ = vlib.sh([harness, "sysprobe", "quick"], timeout=900)
+        hit = [l for l in out.splitlines() if l.startswith("FAIL " + r.get("clause", "C11"))]
+        print("\n".join(hit) if hit else "clause %s holds on the current tree" % r.get("clause", "C11"))
         return 1 if hit else 0
-    return 1 if hit else 0
+    if "model_vs_code" in r and not still:
+        return 0
+    print(rp.get("detail"))
+    return 1
